@@ -27,7 +27,7 @@ def strat():
 
     @st.composite
     def page(draw):
-        kind = draw(st.sampled_from(["grid", "columns", "stairs", "nested", "identical", "degenerate", "polygons", "random", "few", "newspaper"]))
+        kind = draw(st.sampled_from(["grid", "columns", "stairs", "nested", "identical", "degenerate", "polygons", "random", "few", "newspaper", "lattice"]))
         regs = []
         if kind == "grid":
             nx, ny = draw(st.integers(1, 4)), draw(st.integers(1, 3))
@@ -64,6 +64,10 @@ def strat():
                 w = draw(st.sampled_from([0, 0, 1, 200]))
                 h = draw(st.sampled_from([0, 0, 1, 150]))
                 regs.append(box(draw(st.integers(0, 1500)), draw(st.integers(0, 1500)), w, h))
+        elif kind == "lattice":
+            # small whole-number layouts on a 10 px lattice: equal gaps, equal overlaps and equal sums are the rule
+            for i in range(draw(st.integers(2, 8))):
+                regs.append(box(10 * draw(st.integers(0, 12)), 10 * draw(st.integers(0, 12)), 10 * draw(st.integers(1, 10)), 10 * draw(st.integers(1, 10))))
         elif kind == "polygons":
             for i in range(draw(st.integers(1, 8))):
                 pts = draw(st.lists(st.tuples(st.integers(0, 3000), st.integers(0, 3000)), min_size=3, max_size=7))
